@@ -18,7 +18,7 @@ Subjects == {Stacks[i] : i \in {j \in 1..Len(Stacks) : Stacks[j].name \in Subjec
 VARIABLES subj,    \* catalogue entry: region shape + index container kind
           st,      \* [ic |-> index container state, region |-> region state]
           copied,  \* ghost: the sequence the stack must denote
-          ghost,   \* number of content-invisible operations so far
+          ghost,   \* kinds of the operations so far whose effect the state does not show (in the view)
           path
 vars == <<subj, st, copied, ghost, path>>
 View == <<subj, st, copied, ghost, Len(path)>>
@@ -36,7 +36,7 @@ Empty == [ic |-> IC!ICInit(subj.ic), region |-> InitR(Sh)]
 Init == /\ subj \in Subjects
         /\ st = [ic |-> IC!ICInit(subj.ic), region |-> InitR(subj.shape)]
         /\ copied = <<>>
-        /\ ghost = 0
+        /\ ghost = <<>>
         /\ path = <<>>
 
 \* FlatStack::copy: push into the region, remember the index
@@ -70,11 +70,12 @@ Reset(o) == /\ st' = IF o = "clear"
                           ELSE Empty
             /\ copied' = <<>>
             /\ path' = Append(path, IF o = "with_capacity" THEN [op |-> o, n |-> 3] ELSE [op |-> o])
-            /\ UNCHANGED <<subj, ghost>>
+            /\ ghost' = Append(ghost, o)      \* the three ways to empty a stack are continued separately
+            /\ UNCHANGED subj
 
 \* reserve(n), reserve_regions, clone, clone_from, serde: nothing observable changes
-Invisible(o) == /\ ghost < MaxGhost
-                /\ ghost' = ghost + 1
+Invisible(o) == /\ Len(ghost) < MaxGhost
+                /\ ghost' = Append(ghost, o)
                 /\ path' = Append(path, IF o = "reserve" THEN [op |-> o, n |-> 3] ELSE [op |-> o])
                 /\ UNCHANGED <<subj, st, copied>>
 
